@@ -5,7 +5,7 @@ GROUP = dict(
     trusted=['nestio harness (kx/enum/nestio.rs): field menus written by hand (empty, ASCII, multi-byte and non-ASCII-digit content in every column), own oracle for the access column (decimal / 0x / 0b u16 in std from_str_radix syntax)'],
     tests=[
         dict(name='nests_read_never_panics_and_reads_the_access_column', props=['C16', 'C14'], tier='quick', timeout=600,
-             text='Nests::read returns Ok or Err on every line of the universe, never panics; it accepts a line only when the access column is a decimal, 0x hexadecimal or 0b binary number that fits u16 and then stores exactly that value for the listed class',
-             bound='all 7 x 7 x 6 x 8 x 40 = 94 080 lines over hand-written menus for the six tab-separated columns (class, enclosing class, method name / descriptor, inner name, access: empty, well-formed, over- and underflowing numbers, signs, upper-case prefixes, blanks, multi-byte characters at every byte offset up to 2, non-ASCII digits), each as a one-line file, between two well-formed lines and without a final line break; plus lines with 0, 1, 2, 5, 7, 8 fields, invalid UTF-8 and CR LF'),
+             text='Nests::read returns Ok or Err on every line of the universe, never panics; it accepts a line only when the access column is a decimal, 0x hexadecimal or 0b binary number that fits u16 and then stores exactly that value for the listed class, with the kind (anonymous / local / inner) its inner name says',
+             bound='all 7 x 7 x 6 x 10 x 40 = 117 600 lines over hand-written menus for the six tab-separated columns (class, enclosing class, method name / descriptor, inner name, access: empty, well-formed, over- and underflowing numbers, signs, upper-case prefixes, blanks, multi-byte characters at every byte offset up to 2, non-ASCII digits), each as a one-line file, between two well-formed lines and without a final line break; plus lines with 0, 1, 2, 5, 7, 8 fields, invalid UTF-8 and CR LF'),
         dict(name='canary_must_fail', props=[], canary=True, text='must fail', bound=''),
     ])
